@@ -56,6 +56,17 @@ def outer(n):
   return posonly_defaults(h, 3, bias=h, mode=[h, helper(n + 1)])
 
 
+@auto_config.auto_config(experimental_always_inline=False)
+def helper_partial(n):
+  """An auto_config function whose result is a partial, not an instance."""
+  return functools.partial(mutable_defaults, scale=n)
+
+
+@auto_config.auto_config
+def outer_partial(n):
+  return posonly_defaults(helper_partial(n), 3, bias=helper(n), mode=[helper_partial(n + 1)])
+
+
 def bind_canon(x):
   """Canonical form in which callables appearing as values (functions, classes and
   functools.partial objects) print as (underlying callable, full binding after bind_partial +
@@ -229,6 +240,7 @@ def cases(tier, r):
                   'flavour': r.choice(['plain', 'special', 'special', 'serializable'])}
   for n in range(4 if tier == 'quick' else 30):
     yield 'inline', {'seed': n, 'transform': 'inline'}
+    yield 'inline', {'seed': n, 'transform': 'inline', 'partial': True}
     yield 'dataclasses', {'seed': n, 'transform': 'dataclasses'}
 
 
@@ -316,13 +328,25 @@ def execute(case):
     real['transform'] = name
     return real, {k: case[k] for k in ('p', 'sig', 'args', 'kwargs', 'ops')}
   if name == 'inline':
-    cfg = outer.as_buildable(case['seed'])
+    top = outer_partial if case.get('partial') else outer
+    cfg = top.as_buildable(case['seed'])
     base = build_canon(cfg)
-    direct = bind_canon(outer(case['seed']))
+    direct = bind_canon(top(case['seed']))
     c = copy.deepcopy(cfg)
+    refused = 0
     for n in C15.reachable_buildables(c):
       if isinstance(n.__fn_or_cls__, auto_config.AutoConfig):
-        auto_config.inline(n)
+        try:
+          auto_config.inline(n)
+        except TypeError:
+          if not case.get('partial'):
+            raise
+          refused += 1         # a function that does not return a Config cannot be inlined into one
+    obs['refused'] = refused
+    if case.get('partial'):
+      # refused nodes stay as they were: what is built must still be the same
+      obs.update(before=base, after=build_canon(c), direct_equal=(base == direct), still_autoconfig=False)
+      return obs, None
     obs.update(before=base, after=build_canon(c), direct_equal=(base == direct),
                still_autoconfig=any(isinstance(n.__fn_or_cls__, auto_config.AutoConfig)
                                     for n in C15.reachable_buildables(c)))
